@@ -16,7 +16,7 @@ from .. import core
 
 CLS = {1: 'M', 2: 'MM', 3: 'SS', 4: 'UM', 5: 'RT', 6: 'SX'}
 OPS = {1: 'new', 2: 'copy', 3: 'freeze', 4: 'thaw', 5: 'setattr', 6: 'hash', 7: 'freeze_none',
-       8: 'thaw_none', 9: 'hashf', 10: 'delattr', 11: 'setnew'}
+       8: 'thaw_none', 9: 'hashf', 10: 'delattr', 11: 'setnew', 12: 'hashd'}
 BAD = 999
 TWIN = 777
 
@@ -26,7 +26,7 @@ def xval(cls, x):
     if x == TWIN:
         x = 1.0
     if cls in ('M', 'RT'):
-        return 'note', x           # a clock message has no such attribute
+        return 'note', x           # a clock message has no such attribute (999 only with skip_checks)
     if cls == 'MM':
         return 'tempo', (1 << 24) if x == BAD else x
     if cls == 'SX':
@@ -36,9 +36,13 @@ def xval(cls, x):
     return 'data', (x,)
 
 
-def construct(cls, x, t):
+def construct(cls, x, t, unchecked=False):
     import mido
     name, v = xval(cls, x)
+    if unchecked and cls == 'M':
+        return mido.Message('note_on', note=v, time=t, skip_checks=True)
+    if unchecked and cls == 'SX':
+        return mido.Message('sysex', data=v, time=t, skip_checks=True)
     if cls == 'RT':
         return mido.Message('clock', time=t) if x == 1 else mido.Message('clock', note=v, time=t)
     if cls == 'M':
@@ -122,7 +126,7 @@ def replay_history(steps):
                 c, fr, x, t = heap[-1]
                 # every second object carries its time as a float: 5 == 5.0, so equal
                 # frozen messages must still hash equal and find each other in a dict
-                objs.append(construct(CLS[c], x, float(t) if len(objs) % 2 else t))
+                objs.append(construct(CLS[c], x, float(t) if len(objs) % 2 else t, unchecked=(x == BAD)))
             elif op == 'copy':
                 src = objs[i - 1]
                 d0 = describe(src)
@@ -148,7 +152,8 @@ def replay_history(steps):
                         import mido as _m
                         fresh = _m.Message('clock', note=v, time=d0[3])      # no such attribute
                     else:
-                        fresh = construct(c, v if attr == 'x' else d0[2], v if attr == 'time' else d0[3])
+                        fresh = construct(c, v if attr == 'x' else d0[2], v if attr == 'time' else d0[3],
+                                          unchecked=(not ovr and d0[2] == BAD and c in ('M', 'SX')))
                     fresh_ok = True
                 except ALLOWED:
                     fresh_ok = False
@@ -271,6 +276,19 @@ def replay_history(steps):
                     return ('hash-differs/numeric-type',
                             '%s: %s and %s are equal but do not hash equal / collide as keys' % (
                                 where, core.srepr(a), core.srepr(b)))
+            elif op == 'hashd':
+                a = objs[i - 1]
+                if a.is_meta:
+                    b = freeze_message(type(thaw_message(a)).from_bytes(a.bytes()))
+                    if a.time != b.time:
+                        b = freeze_message(thaw_message(b).copy(time=a.time))
+                else:
+                    b = freeze_message(mido.Message.from_bytes(a.bytes(), time=a.time))
+                if not (a == b):
+                    return 'equal-frozen-not-equal', '%s: %s != its decoded twin %s' % (where, core.srepr(a), core.srepr(b))
+                if hash(a) != hash(b) or {a: 1}.get(b) != 1 or len({a, b}) != 1:
+                    return ('hash-differs/construction-route',
+                            '%s: %s (constructed) and its decoded twin are equal but do not hash equal' % (where, core.srepr(a)))
             elif op == 'freeze_none':
                 if freeze_message(None) is not None:
                     return 'freeze-none', 'freeze_message(None) is not None'
@@ -336,14 +354,24 @@ def run(ctx):
     plans = plans + [(4, 4, '{"M"}', 'NegTimes'), (4, 4, '{"MM"}', 'NegTimes')]
     if thorough:
         plans.append((4, 5, '{"M", "UM"}', 'NegTimes'))
-    for plan in plans:
+    import threading
+    from concurrent.futures import ThreadPoolExecutor
+    lock = threading.Lock()
+
+    def one(plan):
         mo, mp, classes = plan[:3]
         nt = plan[3] if len(plan) > 3 else 'StdTimes'
-        pr = core.ParallelReplay(ctx, worker, batch_size=1000)
-        res = core.run_tlc('MsgHeap', cfg(mo, mp, classes, nt), on_emit=pr.push, raw_ints=True,
-                           timeout=3400, heap='16g')
-        pr.finish()
-        ctx.add_tlc(res, 'MsgHeap objs<=%d ops=%d classes %s new times %s' % (mo, mp, classes, nt))
+        pr = core.ParallelReplay(ctx, worker, batch_size=1000, procs=6)
+
+        def push(line):
+            pr.push(line)
+        res = core.run_tlc('MsgHeap', cfg(mo, mp, classes, nt), on_emit=push, raw_ints=True,
+                           timeout=3400, heap='8g', workers=5)
+        with lock:
+            pr.finish()
+            ctx.add_tlc(res, 'MsgHeap objs<=%d ops=%d classes %s new times %s' % (mo, mp, classes, nt))
+    with ThreadPoolExecutor(1 if thorough else 3) as ex:
+        list(ex.map(one, plans))
     if thorough:
         pr = core.ParallelReplay(ctx, worker, batch_size=1000)
         res = core.run_tlc('MsgHeap', cfg(3, 10, allc), on_emit=pr.push, raw_ints=True, simulate=2000,
